@@ -323,8 +323,15 @@ def fetch_width_rule(ctx, R3, X=None):
     for n in walk_no_nested(dis):
         if isinstance(n, ast.If) and u(n.test) == 'm.modifs[w8]' and n.orelse and len(n.body) == 1 and len(n.orelse) == 1:
             a, b = n.body[0], n.orelse[0]
-            if isinstance(a, ast.Assign) and isinstance(b, ast.Assign) and u(a.targets[0]) == u(b.targets[0]) == 'mafs[x86_afs.size]' and u(a.value) == 'x86_afs.u08':
+            if isinstance(a, ast.Assign) and isinstance(b, ast.Assign) and u(a.targets[0]) == u(b.targets[0]) and u(a.targets[0]).endswith('[x86_afs.size]') and u(a.value) == 'x86_afs.u08':
                 WANT.append(('register operand size', b, u(b.value), 'self.opmode'))
+        # the same choice written as a conditional expression:  X[x86_afs.size] = x86_afs.u08 if m.modifs[w8] else <size>
+        if isinstance(n, ast.Assign) and len(n.targets) == 1 and isinstance(n.targets[0], ast.Subscript) and u(n.targets[0].slice) == 'x86_afs.size' and isinstance(n.value, ast.IfExp):
+            ie = n.value
+            if u(ie.test) == 'm.modifs[w8]' and u(ie.body) == 'x86_afs.u08':
+                WANT.append(('register operand size', n, u(ie.orelse), 'self.opmode'))
+            elif u(ie.test) == 'not m.modifs[w8]' and u(ie.orelse) == 'x86_afs.u08':
+                WANT.append(('register operand size', n, u(ie.body), 'self.opmode'))
     # fixed immediates narrowed under the 16-bit operand size: the statements between the branch test and the
     # computation of the byte count are evaluated for every (token, operand size, address size) combination
     fixed_if = None
